@@ -246,9 +246,29 @@ def runPrim (name : String) (bs : Bytes) : String :=
       | .null => "null" | .unset => "unset" | .value b => "v:" ++ hx b) (run readValue bs)
   | _ => "bad-case"
 
+/-- `e <cap> <frame hex>`: iterate the rows of a Rows result without stopping at errors (at most `cap` items). -/
+def runTail (cap : Nat) (bs : Bytes) : String :=
+  if bs.length < 9 then "err short"
+  else match deserResult {} { buf := bs.drop 9 } with
+    | (.ok (.rows r), s) =>
+      (match deserMetadata r none s with
+       | (.ok d, _) =>
+         let items := iterRows d.rmeta.cols.length (min cap d.rowsCount) d.rawRows
+         let oks := (items.filter (fun i => match i with
+           | .ok _ => true
+           | .error _ => false)).length
+         s!"tail rc={d.rowsCount} ok={oks} err={items.length - oks}"
+       | _ => "err meta")
+    | (.ok _, _) => "err notrows"
+    | _ => "err result"
+
 def run (case impl : String) : String :=
   match words case with
   | "f" :: rest => runFrame rest impl
+  | ["e", cap, hex] =>
+    match cap.toNat?, parseHex hex with
+    | some c, some bs => runTail c bs
+    | _, _ => "bad-case"
   | ["p", name, hex] =>
     match parseHex hex with
     | some bs => runPrim name bs
